@@ -1063,6 +1063,14 @@ impl<'a> World<'a> {
             let use_plan_update = plans[i].is_some() && self.dec.choose(&format!("upd{}:{}", ep, i), 3) == 1;
             monitors::update_with_monitors(self, &mut psbt, i, if use_plan_update { plans[i].as_ref().map(|p| &p.plan) } else { None });
         }
+        // an updater that leaves the optional key-origin fields out for one input (BIP174 / BIP371
+        // allow that): nothing a finalizer may depend on for *another* input
+        if n > 1 && self.dec.choose(&format!("no-origins{}", ep), 6) == 1 {
+            let k = self.dec.choose(&format!("no-origins-input{}", ep), n as u64) as usize;
+            psbt.inputs[k].bip32_derivation.clear();
+            psbt.inputs[k].tap_key_origins.clear();
+            self.stats.probe("input_without_key_origins");
+        }
         if psbt.unsigned_tx.output.len() == 2 {
             monitors::update_output_with_monitors(self, &mut psbt, 1, 0);
         }
